@@ -1406,8 +1406,16 @@ fn classical_declaration_statement_to_asg_stmt(
             // type of the lhs is fixed.
             if promoted_type == Type::Void || &promoted_type == init_type {
                 context.insert_error(IncompatibleTypesError, type_decl);
+                initializer
+            } else if init_type.is_const()
+                && types::equal_up_to_constness(&promoted_type, init_type)
+            {
+                // A compile-time constant (eg. `float[32] x = pi;`) may be narrowed to the
+                // declared type. As everywhere else, make the conversion explicit.
+                asg::Cast::new(initializer.clone(), lhs_type.clone()).to_texpr()
+            } else {
+                initializer
             }
-            initializer
         };
         return declare_classical_helper(symbol_id, Some(new_initializer), context);
     }
